@@ -51,7 +51,10 @@ LEVEL_TEXT = ("Theorems (Coq, over the reals, unbounded in the table length; all
               "(C01_curve_differentiable_everywhere); Derivative(.,k), k >= 1, is the k-th derivative of the curve inside segments, at the end knots and in the zone "
               "(C01_derivatives_inside, C01_derivatives_at_ends), of the segment polynomial at interior knots, 0 for k >= 4, and Derivative(.,0) = Interpolate for every object "
               "and every arithmetic, doubles included (C01_derivative_order_0, over abstract NumOps); straight-line data and parabola data with inactive limiter are reproduced "
-              "exactly, value and all three derivatives, at every query point including the zone (C01_linear_exact_everywhere, C01_parabola_exact_everywhere). Constructors: "
+              "exactly, value and all three derivatives, at every query point including the zone (C01_linear_exact_everywhere, C01_parabola_exact_everywhere); on every closed "
+              "segment Derivative(.,1) has the sign of the secant slope s_j and |Derivative(.,1)| <= 2|s_j| (C01_derivative_sign_and_bound; the bound of the S4 clause "
+              "1d:deriv-sign); in the 1 % extrapolation zone, where 'stays between' cannot hold, the value differs from the end value by at most 3 % of the end segment's "
+              "increment (C01_edge_zone_bound; the bound of the S4 clause 1d:edge-zone). Constructors: "
               "the model follows the repaired order of the code (finding F45, /repo 94355d7: length checks, unit conversion of both tables, then the strict-increase loop on "
               "the CONVERTED abscissae). For every arithmetic, the doubles included, with no premise on the multiplication: Interpolation(xs, ys, x_dim, f_dim) returns an "
               "object iff the lengths are equal, N >= 2 and the converted abscissae pass the strict-increase loop, exits iff not, and every object it returns stores a "
@@ -72,7 +75,9 @@ LEVEL_TEXT = ("Theorems (Coq, over the reals, unbounded in the table length; all
               "Not theorems: behaviour in floating point (rounding) -- correspondence run and S4 only, except C01_derivative_order_0; joint continuity of the 2D interpolant as a "
               "function of (x, y) is proved in the form 'closed-cell bilinear form + agreement on shared edges', not as a topological continuity statement; the 2D extrapolation "
               "zone and which malformed data tables are rejected (the accepted ones are covered by the soundness theorem) are covered by correspondence only; the history "
-              "dependence of Locate is property C09, the prefactor C08. std::sort / std::unique are modelled by their specification.")
+              "dependence of Locate is property C09 (the model's Locate is the search of a fresh object); here it is covered by correspondence and S4 on live objects: "
+              "random walks and long runs of 9..1000 neighbouring requests (sweeps in both directions, repeated points, knot after knot) followed by probes in every "
+              "direction (cases h1/h2, tag sweep); the prefactor is C08. std::sort / std::unique are modelled by their specification.")
 LEVEL_NOTE = ("Coq 8.16.1 kernel; theorems over R use the standard library's real-number axioms and Coquelicot (listed in the evidence); hand-written model "
               "tied by differential correspondence (extraction with ExtrOcamlBasic only); pow(x,k) for k=2,3 is modelled by powerRZ in R and libm pow in the float instance")
 TRUSTED = ["std::pow with exponents 2.0 and 3.0 is modelled by npowi (powerRZ on R, libm pow on doubles)",
@@ -244,6 +249,81 @@ def history_queries(rng, xs, n):
         q = rng.choice(["L", "L", "I", "I", "D 0", "D 1", "D 2", "D 3", "K"])
         qs.append(f"{q} {hx(x)}")
     return qs
+
+
+RUN_LENGTHS = [9, 10, 11, 31, 32, 33, 63, 64, 65, 66, 67, 100, 127, 128, 129, 130, 200, 255, 256, 257, 300]
+RUN_KINDS = ["up", "up", "up", "down", "same-point", "same-point", "same-interval", "zigzag", "up-knots", "down-knots", "up-9-10", "drift"]
+
+
+def point_in(rng, xs, j, w=None):
+    """a request point of segment j (for Locate: the right one at a knot): interior, its left knot, just inside either end"""
+    N = len(xs); h = xs[j + 1] - xs[j]; w = rng.random() if w is None else w
+    if w < 0.6: x = xs[j] + h * rng.random()
+    elif w < 0.8: x = xs[j]
+    elif w < 0.9: x = math.nextafter(xs[j + 1], -math.inf)
+    else: x = math.nextafter(xs[j], math.inf)
+    if not (xs[j] <= x < xs[j + 1]): x = xs[j]
+    return x
+
+
+def sweep_queries(rng, xs, long_runs=False):
+    """long runs of requests that are close to one another (a plot / quadrature sweep upward or downward, the same point or the same
+    interval again and again, knot after knot, steps of exactly 9 / 10 intervals, a slow drift), of every length around the powers of
+    two up to 1000, each followed by probes in EVERY direction: the interval just left / right, 2..11 intervals away, the first and
+    last interval, far jumps, knots and their neighbours, the 1 % zones -- then possibly another run on the same object."""
+    N = len(xs); qs = []; j = rng.randrange(N - 1); tags = set()
+    def ask(x, kinds=("L", "L", "I", "I", "D 0", "D 1", "D 2", "D 3", "K")):
+        if locate_ref(xs, x) is None: return
+        q = rng.choice(kinds)
+        if q == "K" and (locate_ref(xs, math.nextafter(x, -math.inf)) is None or locate_ref(xs, math.nextafter(x, math.inf)) is None): q = "I"
+        qs.append(f"{q} {hx(x)}")
+    for _phase in range(rng.choice([1, 1, 2, 3])):
+        L = rng.choice(RUN_LENGTHS + ([500, 1000, 1025] if long_runs else [])); kind = rng.choice(RUN_KINDS)
+        tags.add("run:" + kind); tags.add("len:" + ("<=64" if L <= 64 else "65-129" if L <= 129 else ">129"))
+        span = N - 2
+        if kind in ("up", "up-knots", "up-9-10", "drift"): j = rng.randrange(max(1, (N - 1) // 2)) if rng.random() < 0.7 else 0
+        elif kind in ("down", "down-knots"): j = rng.randrange((N - 1) // 2, N - 1) if rng.random() < 0.7 else N - 2
+        else: j = rng.randrange(N - 1)
+        x_same = point_in(rng, xs, j); one_kind = rng.choice([None, None, ("L",), ("I",), ("D 1",)])
+        pstep = min(1.0, 1.5 * span / float(L))        # the run crosses the whole table once
+        for _k in range(L):
+            if kind in ("up", "down"):
+                st = 0
+                if rng.random() < pstep: st = 1 + (rng.choice([0, 0, 0, 1, 3, 8]) if span > 3 * L else 0)
+                j = max(0, min(N - 2, j + (st if kind == "up" else -st))); x = point_in(rng, xs, j)
+            elif kind == "same-point": x = x_same
+            elif kind == "same-interval": x = point_in(rng, xs, j)
+            elif kind == "zigzag": j = max(0, min(N - 2, j + rng.choice([-1, 1]))); x = point_in(rng, xs, j)
+            elif kind in ("up-knots", "down-knots"):
+                if rng.random() < pstep: j = max(0, min(N - 2, j + (1 if kind == "up-knots" else -1)))
+                x = xs[j]
+            elif kind == "up-9-10":
+                st = rng.choice([0, 0, 1, 9, 9, 10]) if rng.random() < min(1.0, 3.0 * span / (9.0 * L)) else 0
+                j = max(0, min(N - 2, j + st)); x = point_in(rng, xs, j)
+            else: j = max(0, min(N - 2, j + rng.choice([0, 0, 0, 0, 1, 1, 2, -1]))); x = point_in(rng, xs, j)
+            ask(x, one_kind or ("L", "I", "I", "D 0", "D 1", "D 2", "D 3"))
+        # probes
+        for _p in range(rng.choice([2, 4, 6, 10])):
+            r = rng.random()
+            if r < 0.2: t = j - 1
+            elif r < 0.35: t = j - rng.choice([2, 3, 5, 8, 9, 10, 11])
+            elif r < 0.45: t = 0
+            elif r < 0.55: t = rng.randrange(0, j + 1)
+            elif r < 0.62: t = j
+            elif r < 0.72: t = j + rng.choice([1, 2, 9, 10, 11])
+            elif r < 0.8: t = N - 2
+            else: t = rng.randrange(N - 1)
+            t = max(0, min(N - 2, t)); w = rng.random()
+            if w < 0.75: x = point_in(rng, xs, t)
+            elif w < 0.85: x = xs[t + 1] if t + 1 < N - 1 else xs[t]
+            elif w < 0.93 and t == 0: x = xs[0] - 1e-2 * (xs[1] - xs[0]) * rng.uniform(0.0, 0.99)
+            elif w < 0.93 and t == N - 2: x = xs[-1] + 1e-2 * (xs[-1] - xs[-2]) * rng.uniform(0.0, 0.99)
+            elif t == N - 2: x = xs[-1]
+            else: x = xs[t] + 0.5 * (xs[t + 1] - xs[t])
+            if rng.random() < 0.15 and locate_ref(xs, x) is not None: qs.append(f"G {t} {rng.choice([4, 8])}"); j = t; continue
+            ask(x); jj = locate_ref(xs, x)
+            if jj is not None: j = jj
+    return qs, tuple(sorted(tags))
 
 
 def line1(op, xd, fd, xs, ys, qs): return f"{op} {hx(xd)} {hx(fd)} {flist(xs)} {flist(ys)} {len(qs)} " + " ".join(qs)
@@ -844,6 +924,15 @@ def generate(rng, tier):
         N = rng.randint(5, 40); xs, xm = gen_xs(rng, N); ys, ym = gen_ys(rng, N, xs); xd, fd = pick_dims(rng) if rng.random() < 0.3 else (-1.0, -1.0)
         qs = history_queries(rng, scaled(xd, xs), rng.choice([40, 80, 160]))
         cs.append(Case(line1("h1", xd, fd, xs, ys, qs), ("1d", "history", "x:" + xm, "y:" + ym)))
+    # long histories: runs of 9 .. 1000 neighbouring requests on one live object, then probes in every direction (small tables, where
+    # every request is near every other one, up to tables of a few hundred points)
+    for k in range(600 if big else 56):
+        N = rng.choice([3, 4, 5, 8, 10, 11, 12, 20, 40, 40, 80, 150, 300])
+        if rng.random() < 0.3: xs, xm, _dy = struct_xs(rng, N)
+        else: xs, xm = gen_xs(rng, N)
+        ys, ym = gen_ys(rng, N, xs); xd, fd = pick_dims(rng) if rng.random() < 0.3 else (-1.0, -1.0)
+        qs, stags = sweep_queries(rng, scaled(xd, xs), long_runs=(big or k % 8 == 0))
+        cs.append(Case(line1("h1", xd, fd, xs, ys, qs), ("1d", "history", "sweep", "x:" + xm, "y:" + ym) + stags))
     # NaN argument: Locate terminates with a diagnostic
     for _ in range(60 if big else 12):
         N = rng.choice([3, 5, 9]); xs, xm = gen_xs(rng, N); ys, ym = gen_ys(rng, N, xs)
@@ -1210,9 +1299,9 @@ def pred_1d(c, d, vals):
             if kk == 0: check_value(x, o[0], "D0")
             elif kk >= 4 and o[0] != 0.0: out.append(("1d:deriv-order>=4", f"Derivative({x!r},{kk}) = {o[0]!r}, the curve is a cubic: 0 expected"))
             elif kk == 1 and j is not None and xs[0] <= x <= xs[-1]:
-                # monotone on the segment: the derivative has the sign of the secant slope and is at most 3|s| (2|s| at the ends, 1.5|s| inside)
+                # monotone on the segment: the derivative has the sign of the secant slope and is at most 2|s| (theorem C01_derivative_sign_and_bound)
                 sl1 = 64 * EPS * 38 * abs(s[j]) + 1e-300
-                if o[0] * s[j] < -sl1 * abs(s[j]) or abs(o[0]) > 3 * abs(s[j]) + sl1:
+                if o[0] * s[j] < -sl1 * abs(s[j]) or abs(o[0]) > 2 * abs(s[j]) + sl1:
                     out.append(("1d:deriv-sign", f"Derivative({x!r},1) = {o[0]!r} but the secant slope of segment {j} is {s[j]!r}: not monotone"))
         elif q[0] == "G":
             j, m = q[1], q[2]; sl = seg_slack(ys, j); up = ys[j + 1] >= ys[j]
@@ -1282,7 +1371,7 @@ def pred_1d(c, d, vals):
                 if not (abs(dv - gv) <= tv):
                     out.append((f"1d:deriv{kk}", f"Derivative({x!r},{kk}) = {dv!r} is not the derivative of the returned curve (divided difference of Interpolate on x-2d..x+2d, d = {dd!r}: {gv!r}; off by {abs(dv - gv):.3g}, allowed {tv:.3g})"))
             sl1 = 64 * EPS * 38 * S + 1e-300
-            if d1 * s[j] < -sl1 * S or abs(d1) > 3 * S + sl1:
+            if d1 * s[j] < -sl1 * S or abs(d1) > 2 * S + sl1:
                 out.append(("1d:deriv-sign", f"Derivative({x!r},1) = {d1!r} but the secant slope of segment {j} is {s[j]!r}: not monotone"))
     return out
 
